@@ -200,7 +200,8 @@ def enum_observation(ctx, plain, cases):
 def run(ctx):
     quick = ctx.quick
     ctx.cov["rule"] = ("TLC (Scan.tla) enumerates texts '; <body>\\n': every body of <= N characters over the 25-character punctuator alphabet "
-                       "and over the 19-character literal alphabet {0 1 8 9 e E p x . + - _ a u U L ' \" \\} (N = 3 quick, 4 thorough), each body of <= N-1 "
+                       "and over the 19-character literal alphabet {0 1 8 9 e E p x . + - _ a u U L ' \" \\} (N = 3 quick, 4 thorough), every body of <= 4 (5) characters "
+                       "over the number alphabet {1 e p + - . x _} and over the prefix alphabet {u U L 8 ' \" a}, each body of <= N-1 "
                        "characters additionally with a splice, a double splice, an empty block comment, a block comment holding quotes and a new-line at every "
                        "position and two line-comment tails; every keyword spelling of the spec list and of pp.c's table with all one-character substitutions / "
                        "insertions / deletions over a perturbation alphabet; random sequences of 8..14 lexeme chunks (simulation). Each text is replayed into "
@@ -217,6 +218,8 @@ def run(ctx):
         jobs = {"refine": ("MC_Scan_refine_%s.cfg" % tier, {}, {}),
                 "punct": ("MC_Scan_punct_%s.cfg" % tier, {"Devs": lexlib.tla_set(devs)}, {"heap": "4g"}),
                 "lit": ("MC_Scan_lit_%s.cfg" % tier, {"Devs": lexlib.tla_set(devs)}, {"heap": "4g"}),
+                "num": ("MC_Scan_num_%s.cfg" % tier, {"Devs": lexlib.tla_set(devs)}, {}),
+                "pre": ("MC_Scan_pre_%s.cfg" % tier, {"Devs": lexlib.tla_set(devs)}, {}),
                 "kw": ("MC_Scan_kw_%s.cfg" % tier, {"Devs": lexlib.tla_set(devs)}, {}),
                 "mix": ("MC_Scan_mix.cfg", {"Devs": lexlib.tla_set(devs)}, {"simulate": n_sim, "depth": 60})}
 
@@ -233,7 +236,7 @@ def run(ctx):
         ctx.cov["refinement"] = {"cfg": jobs["refine"][0], "distinct_states": runs["refine"].distinct, "holds": True}
 
         kwcases = []
-        for family in ("punct", "lit", "kw", "mix"):
+        for family in ("punct", "lit", "num", "pre", "kw", "mix"):
             cases = load_cases(runs[family])
             if family == "mix":
                 seen, uniq = set(), []
